@@ -14,11 +14,18 @@ import (
 // quoteToken tells whether a base token was read by the tokenizer's quote state: quote states are
 // the only producers of Quoted tokens, and the expression quote state types "..." as Word (ordinary
 // words cannot start with a quote character).
+func baseKind(kind string) string {
+	if i := strings.IndexByte(kind, '+'); i >= 0 {
+		return kind[:i]
+	}
+	return kind
+}
+
 func quoteToken(kind string, b tk) bool {
 	if b.T == tokenizers.Quoted {
 		return true
 	}
-	return kind == "expression" && b.T == tokenizers.Word && strings.HasPrefix(b.V, "\"")
+	return baseKind(kind) == "expression" && b.T == tokenizers.Word && strings.HasPrefix(b.V, "\"")
 }
 
 // refDecode is the reference decoding of a literal read by a quote state; ok=false when the literal is
@@ -29,7 +36,7 @@ func refDecode(kind string, v string) (string, bool) {
 		return v, false
 	}
 	q := rs[0]
-	doubling := kind == "expression" || kind == "csv"
+	doubling := baseKind(kind) == "expression" || baseKind(kind) == "csv"
 	var body []rune
 	i := 1
 	for i < len(rs) {
